@@ -110,6 +110,12 @@ def time_input(name, seconds, carrier='dt64'):
         if any(x % 60 for x in secs):
             raise ValueError('minute carrier needs whole minutes')
         return Vec.fresh(cells, kind='nd', dtype='M8', unit='m', owner=name)
+    if carrier in ('dt64_scalar_list', 'dt64_scalar_tuple'):
+        # np.datetime64 scalars (second resolution) in a plain list / tuple: no dtype on the container
+        if any(x.denominator != 1 for x in secs):
+            raise ValueError('second-resolution scalars need whole seconds')
+        out = [Sc(X.num(s), 'M8', 's') for s in secs]
+        return out if carrier == 'dt64_scalar_list' else tuple(out)
     if carrier == 'epoch_list':
         return [int(s) if s.denominator == 1 else s for s in secs]
     if carrier == 'epoch_array':
